@@ -196,8 +196,34 @@ class View:
         return bytes in cs
 
 
+def decoder_roles(F):
+    """Names, read from the CURRENT AST of unforge_micheline by ROLE (a renamed local or nested function is the same decoder):
+    buffer  = the first parameter;   reader = the nested function that the outer body itself calls (the one whose result is returned:
+    the recursive node reader);   pointer = the variable that reader declares `nonlocal` (the shared read position).
+    Falls back to the names of the pinned source when the shape is different."""
+    import ast
+    from vlib.pyvc.engine import fn_ast
+    roles = dict(buffer='data', reader='unforge', pointer='ptr')
+    try:
+        node = fn_ast(F.unforge_micheline)
+        roles['buffer'] = node.args.args[0].arg
+        nested = {n.name: n for n in node.body if isinstance(n, ast.FunctionDef)}
+        called = [c.func.id for st in node.body if not isinstance(st, ast.FunctionDef) for c in ast.walk(st)
+                  if isinstance(c, ast.Call) and isinstance(c.func, ast.Name) and c.func.id in nested]
+        if called:
+            roles['reader'] = called[0]
+            nl = [nm for st in ast.walk(nested[called[0]]) if isinstance(st, ast.Nonlocal) for nm in st.names]
+            if len(nl) == 1:
+                roles['pointer'] = nl[0]
+    except Exception:   # noqa
+        pass
+    return roles
+
+
 def install(e, kids):
     from pytezos.michelson import forge as F
+    roles = decoder_roles(F)
+    n_ptr, n_data = roles['pointer'], roles['buffer']
 
     def forge_rec(eng, a, k):
         (c,) = a
@@ -258,21 +284,23 @@ def install(e, kids):
 
     def unforge_rec(eng, closure, a, k):
         env = closure.env
-        while env is not None and 'ptr' not in env:
+        while env is not None and n_ptr not in env:
             env = env.get('__parent__')
         if env is None:
             raise Unsupported('read pointer not found')
         data_env = closure.env
-        while data_env is not None and 'data' not in data_env:
+        while data_env is not None and n_data not in data_env:
             data_env = data_env.get('__parent__')
-        buf = data_env['data']
-        i, off = buf.locate(eng, env['ptr'])
+        if data_env is None:
+            raise Unsupported('input buffer not found')
+        buf = data_env[n_data]
+        i, off = buf.locate(eng, env[n_ptr])
         p = buf.parts[i]
         if p[0] != 'enc':
             raise RaiseEx(AssertionError(f'decoder started on a child at a position that is not the start of a child encoding ({p[0]})'))
-        env['ptr'] = Sym(z3.simplify(Z(env['ptr']) + p[1].L))
+        env[n_ptr] = Sym(z3.simplify(Z(env[n_ptr]) + p[1].L))
         return p[1]
-    e.closure_contracts['unforge'] = dict(handler=unforge_rec, inline_depth=1)
+    e.closure_contracts[roles['reader']] = dict(handler=unforge_rec, inline_depth=1)
 
 
 def spec_layout(form, prim, kids, annots):
